@@ -93,6 +93,7 @@ type Exec struct {
 	pcSLen       []int
 	domTerms     map[domKey]*Term
 	enumCache    map[enumKey]uint8
+	ttCache      map[*Term][4]uint64
 	maxDepthAll  int
 	timers       []Value
 
@@ -217,13 +218,9 @@ func (e *Exec) pushPC(t *Term) {
 	if v := t.SingleSmallVar(); v != nil {
 		old := e.domains[v]
 		nd := e.domainOf(v)
-		for k := 0; k < 1<<v.W; k++ {
-			if nd[k>>6]&(1<<(uint(k)&63)) == 0 {
-				continue
-			}
-			if evalWith(t, v, uint64(k)) == 0 {
-				nd[k>>6] &^= 1 << (uint(k) & 63)
-			}
+		tt := e.truthTable(t, v)
+		for i := range nd {
+			nd[i] &= tt[i]
 		}
 		e.domUndo = append(e.domUndo, domUndo{len(e.pc), v, old})
 		e.domains[v] = &nd
@@ -325,29 +322,12 @@ func evalWith(t *Term, v *Term, val uint64) uint64 {
 // feasible values: sound for exploration; obligations are always decided by the solver under the full pc).
 func (e *Exec) enumBranch(c *Term, v *Term) (canT, canF bool) {
 	d := e.domainOf(v)
-	key := enumKey{c, d}
-	if r, ok := e.enumCache[key]; ok {
-		e.stats.EnumDecided++
-		return r&1 != 0, r&2 != 0
-	}
-	defer func() {
-		var r uint8
-		if canT {
-			r |= 1
-		}
-		if canF {
-			r |= 2
-		}
-		e.enumCache[key] = r
-	}()
-	n := 1 << v.W
-	for k := 0; k < n && !(canT && canF); k++ {
-		if d[k>>6]&(1<<(uint(k)&63)) == 0 {
-			continue
-		}
-		if evalWith(c, v, uint64(k)) != 0 {
+	tt := e.truthTable(c, v)
+	for i := range d {
+		if d[i]&tt[i] != 0 {
 			canT = true
-		} else {
+		}
+		if d[i]&^tt[i] != 0 {
 			canF = true
 		}
 	}
@@ -701,6 +681,7 @@ func (e *Exec) runPath(prefix []decision, entry *ssa.Function) (out pathOutcome)
 	if e.domTerms == nil {
 		e.domTerms = map[domKey]*Term{}
 		e.enumCache = map[enumKey]uint8{}
+		e.ttCache = map[*Term][4]uint64{}
 	}
 	e.steps = 0
 	e.maxDepthSeen = 0
